@@ -62,8 +62,16 @@ def folded_shape_text():
                      st.sampled_from(["", "", "\n", "\n\n"])).map(lambda t: t[1].join(t[0]) + t[2])
 
 
+# words that mean something at the START of a line (document markers, indicators, directive look-alikes): inside a long
+# plain or folded scalar the writer may fold the line right in front of one of them
+LINE_START_WORDS = ["...", "---", "-", "?", "%YAML", "%TAG", "&a", "*a", "!a", "|", ">", "- -", "....", "----", "#"]
+
+
 def long_words_text():
-    return st.lists(st.sampled_from(WORDS + ["\xe9t\xe9", "日本語"]), min_size=8, max_size=40).map(" ".join)
+    plain_words = st.lists(st.sampled_from(WORDS + ["\xe9t\xe9", "日本語"]), min_size=8, max_size=40).map(" ".join)
+    with_markers = st.lists(st.one_of(st.sampled_from(WORDS[:8]), st.sampled_from(WORDS[:8]), st.sampled_from(LINE_START_WORDS[:12])),
+                            min_size=6, max_size=30).map(" ".join)
+    return st.one_of(plain_words, with_markers)
 
 
 def edge_text():
